@@ -131,6 +131,8 @@ def obligations(tier):
                 continue
             if tier == "quick" and ins == ("A1:A3",) and kind != "direct":
                 continue
+            if tier == "quick" and (t, ins) == ("chain", ("A1", "A2")):
+                continue
             obs.append(Obligation(PROP, f"trim[{t}:{'+'.join(ins)}->{'+'.join(outs)},{kind}]", __name__, "ob_trim", (ci, kind),
                                   timeout=300 if tier == "quick" else 1500, float_mode="real", sig=sig, group=t))
     return obs
